@@ -2640,6 +2640,7 @@ def r79_month_day_ranges(ctx):
     P = ("C01", "C02", "C04", "C05", "C12", "C15", "C20", "C03")
     rep.need_anchor(rule, "day ranges of _iter_months_days")
     from ..linear import lin
+    from ..flow import expand_values
     f = ctx.try_func("data._iter_months_days")
     if f is None:
         rep.anchor(rule, "day ranges of _iter_months_days")
@@ -2665,14 +2666,19 @@ def r79_month_day_ranges(ctx):
             lo = args[0] if len(args) > 1 else ast.Constant(0)
             hi = args[1] if len(args) > 1 else args[0]
             key = ctx.fkey(f, c, "range")
+            # a bound held in a local stands for the values the local takes
+            los = [v for v, _ in expand_values(f.node, lo)]
+            his = [v for v, _ in expand_values(f.node, hi)]
+            dlin = lin(ast.Name(days, ast.Load()), {})
             if step == 1:
-                first_ok = lin(lo, {}).const() == 1 or U(lo) == start_day
-                d = lin(hi, {}).add(lin(ast.Name(days, ast.Load()), {}), -1)
-                last_ok = d.const() == 1
+                first_ok = all(lin(v, {}).const() == 1 or U(v) == start_day
+                               for v in los)
+                last_ok = all(lin(v, {}).add(dlin, -1).const() == 1
+                              for v in his)
                 want = "range(1 or %s, %s + 1)" % (start_day, days)
             elif step == -1:
-                first_ok = U(lo) in (days, start_day)
-                last_ok = lin(hi, {}).const() == 0
+                first_ok = all(U(v) in (days, start_day) for v in los)
+                last_ok = all(lin(v, {}).const() == 0 for v in his)
                 want = "range(%s or %s, 0, -1)" % (days, start_day)
             else:
                 first_ok = last_ok = False
